@@ -683,17 +683,37 @@ def _terminator(prog: Program, run: Run) -> None:
     wl = [x for x in walk_no_nested(d.node) if isinstance(x, ast.While)]
     if not wl:
         raise AnalysisError("MinMaxLengthType.decode_from_pdu: terminator search loop not found")
-    steps = [x for x in ast.walk(wl[0]) if isinstance(x, ast.AugAssign) and ast.unparse(
-        x.target) == "terminator_pos"]
-    if len(steps) == 1 and isinstance(steps[0].op, ast.Add) and ast.unparse(
-            steps[0].value) == "1":
+    # the search position variable is the one the find() result is assigned to; the resume
+    # offset is (start argument of the find inside the loop - position) + increments in the loop
+    finds = [x for x in walk_no_nested(d.node) if isinstance(x, ast.Assign) and isinstance(
+        x.value, ast.Call) and isinstance(x.value.func, ast.Attribute) and
+        x.value.func.attr == "find" and isinstance(x.targets[0], ast.Name)]
+    in_loop = [x for x in finds if any(y is x for y in ast.walk(wl[0]))]
+    step = None
+    if len(in_loop) == 1 and len(in_loop[0].value.args) >= 2:
+        pos = in_loop[0].targets[0].id
+        start = in_loop[0].value.args[1]
+        diff = normalize(ast.BinOp(left=start, op=ast.Sub(), right=ast.Name(
+            id=pos, ctx=ast.Load()))).const_value()
+        incs = [x for x in ast.walk(wl[0]) if isinstance(x, ast.AugAssign) and ast.unparse(
+            x.target) == pos]
+        inc_total = 0
+        for x in incs:
+            c = normalize(x.value).const_value()
+            if c is None or not isinstance(x.op, ast.Add):
+                diff = None
+                break
+            inc_total += c
+        if diff is not None:
+            step = diff + inc_total
+    if step == 1:
         run.ok(R, "MinMaxLengthType.decode_from_pdu", "a misaligned terminator candidate is "
                "skipped by one byte (no aligned candidate can be missed)",
-               f"{d.module.rel}:{steps[0].lineno}")
+               f"{d.module.rel}:{in_loop[0].lineno}")
     else:
         run.violation(R, "MinMaxLengthType.decode_from_pdu", "search-step",
                       "after a misaligned candidate the search does not resume exactly one byte "
-                      f"further ({[stmt_key(s) for s in steps]}): a correctly aligned terminator "
+                      f"further (resume offset {step}): a correctly aligned terminator "
                       "that overlaps the misaligned candidate is skipped and the value swallows "
                       "the following parameters", d.loc)
     al = [x for x in ast.walk(wl[0]) if isinstance(x, ast.If) and "%" in ast.unparse(x.test)]
